@@ -386,8 +386,11 @@ let run_case oc (line : string) =
                 ignore (n_of_string a.(3)); ignore (n_of_string a.(4));
                 let cap = n_of_string a.(1) in
                 if BinNat.N.eqb cap N0 then "X"
-                else if a.(0) = "NR" then out_s (do_step (Rodeo.NewRodeo (cap, lim_of_string a.(2))))
-                else out_s (do_step (Rodeo.NewThreaded (cap, lim_of_string a.(2))))
+                else
+                  (* a constructor panics only on a failed allocation of the first bucket: FORMAT.md prints that as P:alloc *)
+                  let ctor_s o = match o with Rodeo.OPanic -> "P:alloc" | _ -> out_s o in
+                  if a.(0) = "NR" then ctor_s (do_step (Rodeo.NewRodeo (cap, lim_of_string a.(2))))
+                  else ctor_s (do_step (Rodeo.NewThreaded (cap, lim_of_string a.(2))))
             | "I" -> out_s (do_step (Rodeo.Intern (slot 1, bytes_of_hex a.(2))))
             | "IP" -> out_s (do_step (Rodeo.InternP (slot 1, bytes_of_hex a.(2))))
             | "IS" ->
